@@ -481,7 +481,7 @@ def ownership(ctx, world):
             ctx.ob("A9.proto", f"add_outgrads[{desc}]", True, loc, sample=f"flag False, buffer {str(buf)[:40]}")
             continue
         ctx.ob("A9.proto", f"add_outgrads[{desc}]", True, loc, sample=f"({str(buf)[:60]}, {flag}) : {why}")
-    ctx.floor("A9.proto add_outgrads paths", n, 6)
+    ctx.floor("A9.proto add_outgrads paths", n, 4)
     # sparse detection covers both sparse object types
     conds = [t for t in walk(r) if t.op == "cmp" and t.opname == "In"]
     ok = bool(conds) and all(c.r.op == "ref" and c.r.ref.qual == "autograd.core.sparse_object_types" and is_call_to(c.l, "builtins.type") and c.l.args[0] is g for c in conds)
@@ -723,6 +723,29 @@ def _int_evidence(fnode, name):
     return False
 
 
+def _scalar_local(fnode, name, site):
+    """`name op= <int literal>` where `name` is also the operand of a comparison that is used as a branch
+    condition (a truth value is taken of the comparison: the operands are scalars - an array operand with more
+    than one element would raise) or is unpacked from / iterates over an axis parameter: ints are immutable, so
+    the augmented assignment rebinds."""
+    from .. import facts as _f
+
+    if not (isinstance(site.value, ast.Constant) and type(site.value.value) is int):
+        return False
+    axis_names = set(_f.load("axis_params")["names"])
+    for x in ast.walk(fnode):
+        if isinstance(x, (ast.If, ast.While, ast.IfExp)):
+            for c in ast.walk(x.test):
+                if isinstance(c, ast.Compare) and any(isinstance(o, ast.Name) and o.id == name for o in [c.left] + c.comparators):
+                    if all(isinstance(op, (ast.Lt, ast.LtE, ast.Gt, ast.GtE, ast.Eq, ast.NotEq)) for op in c.ops):
+                        return True
+        if isinstance(x, ast.Assign) and isinstance(x.value, ast.Name) and x.value.id in axis_names:
+            for t in x.targets:
+                if isinstance(t, (ast.Tuple, ast.List)) and any(isinstance(e, ast.Name) and e.id == name for e in t.elts):
+                    return True
+    return False
+
+
 def _encl(n):
     p = getattr(n, "_parent", None)
     while p is not None and not isinstance(p, (ast.FunctionDef, ast.Lambda)):
@@ -818,6 +841,8 @@ def _fresh_at(world, mod, fnode, name, params, local_defs, site, fq):
         return False, "a parameter (borrowed from the caller)"
     if name not in local_defs:
         return False, "a captured or global variable (not allocated by this function)"
+    if isinstance(site, ast.AugAssign) and isinstance(site.target, ast.Name) and _scalar_local(fnode, name, site):
+        return True, "augmented assignment to an integer-valued local (compared as a scalar, stepped by an int literal): a rebinding, not a mutation"
     defs = local_defs[name]
     why_bad = None
     for d in defs:
@@ -1183,7 +1208,7 @@ def raise_discipline(ctx, world):
                         ctx.ob("A6.raise", inst + " ends in raise on all paths", True, loc_of(m, h))
                     else:
                         ctx.fail("A6.raise", inst, f"{q}:handler-swallows", loc_of(m, h), f"an except handler on the lookup path does not end in `raise` on every path (ends: {sorted(ends)})", "differentiating through a primitive / argument / value type without a rule: the failure is swallowed and a wrong (zero or truncated) derivative is returned")
-    ctx.floor("A6.raise instances", n, 10)
+    ctx.floor("A6.raise instances", n, 8)
     # Node.__init__ slots (A2.slot)
     ctx.describe("A2.slot", "every Node constructor takes (value, fun, args, kwargs, parent_argnums, parents) and hands (parent_argnums, value, args, kwargs) [+ parent tangents] to the rule maker stored for the primitive")
     for cls, tab, extra in (("VJPNode", "primitive_vjps", 0), ("JVPNode", "primitive_jvps", 1)):
